@@ -1,29 +1,93 @@
 """C20 — DynamicOpticalSystem: correspondence with the Lean scheduler model + direct oracle."""
+from fractions import Fraction
 from harness.common import rat, MachineryError, shrink_list
 
 EPS = 1e-6
 TINY = 2.0 ** -22      # 2.4e-7: lets sums of a few TINY fall on either side of the 1e-6 threshold
 FUEL = 100000
+U = 2.0 ** -72         # the unit in the last place of the double 1e-6 (= 4722366482869645 * U)
+NE = 4722366482869645  # mantissa of the double 1e-6
+NH = (NE - 1) // 2     # NH + (NH + 1) == NE: two stretches that add up to exactly the threshold
+STYLES = ['plain', 'ties', 'coalesce', 'reinserting', 'empty', 'mixed',
+          'pastadds', 'negkids', 'epsgrid', 'decimal', 'diverge', 'clockrel']
+
+
+class FuelGuard(Exception):
+    """raised by the harness's own callback wrapper after N executions within one evolve_until: the stand-in for the
+    model's fuel (the real loop of a zero-delay self-re-inserting callback would spin forever)"""
 
 
 # ---------------------------------------------------------------------------------------------
 # generation
 
+POPULATION_CAP = 2500
+
+
+def population(ops, cap=POPULATION_CAP):
+    """A cheap dry run (plain heap, no coalescing, clock = the callback's own time): how many callbacks the history
+    executes, counted up to `cap`.  Self-re-inserting callbacks that also schedule children multiply; a few generated
+    histories would execute tens of thousands of callbacks and dominate the run time."""
+    import heapq
+    kids, heap, ctr, n, guard = {}, [], 0, 0, 0
+    for op in ops:
+        if op[0] == 'kids':
+            kids[op[1]] = [(float(k[0]), int(k[1])) for k in op[2]]
+        elif op[0] == 'guard':
+            guard = int(op[1])
+        elif op[0] == 'add':
+            heapq.heappush(heap, (float(op[1]), ctr, int(op[2])))
+            ctr += 1
+        elif op[0] == 'evolve':
+            m = 0
+            while heap and heap[0][0] < float(op[1]) and n < cap and not (guard and m >= guard):
+                t, _, cid = heapq.heappop(heap)
+                n += 1
+                m += 1
+                for d, child in kids.get(cid, []):
+                    heapq.heappush(heap, (t + d, ctr, child))
+                    ctr += 1
+    return n
+
+
 def gen_history(rng, big):
+    """A generated history whose dry-run population stays below POPULATION_CAP (otherwise drawn again)."""
+    while True:
+        style, ops = gen_history_any(rng, big)
+        if population(ops) < POPULATION_CAP:
+            return style, ops
+
+
+def gen_history_any(rng, big):
     """ops: ('kids', id, [(delay, child)]) | ('add', t, id) | ('evolve', T)"""
     ops = []
     nids = int(rng.integers(1, 7 if not big else 12))
-    style = rng.choice(['plain', 'ties', 'coalesce', 'reinserting', 'empty', 'mixed'])
+    style = str(rng.choice(STYLES))
+    if style == 'epsgrid':
+        return style, gen_epsgrid(rng)
+    if style == 'decimal':
+        return style, gen_decimal(rng, nids)
+    if style == 'diverge':
+        return style, gen_diverge(rng, nids)
+    if style == 'clockrel':
+        return style, gen_clockrel(rng, nids)
     # callback behaviours: zero/small delays only towards larger ids (a DAG), self-reinsertion
     # only with a delay of at least 1/8 so that every history terminates
     for i in range(nids):
         kids = []
         if style in ('reinserting', 'mixed') and rng.random() < 0.6:
             kids.append((float(rng.integers(1, 9)) / 8.0 + (TINY * int(rng.integers(0, 3)) if style == 'mixed' else 0.0), i))
-        if style in ('mixed', 'coalesce', 'ties') and i + 1 < nids and rng.random() < 0.5:
+        if style in ('mixed', 'coalesce', 'ties', 'pastadds') and i + 1 < nids and rng.random() < 0.5:
             j = int(rng.integers(i + 1, nids))
             d = [0.0, TINY * int(rng.integers(0, 6)), float(rng.integers(0, 5)) / 4.0][int(rng.integers(0, 3))]
             kids.append((d, j))
+        if style == 'negkids' and i + 1 < nids and rng.random() < 0.7:
+            # a child scheduled BEFORE its parent's own time (violates WF); only towards larger ids, so it terminates
+            for _ in range(int(rng.integers(1, 3))):
+                j = int(rng.integers(i + 1, nids))
+                d = [-0.25, -0.5, -2.0, -TINY * int(rng.integers(1, 6)), 0.0, 0.25][int(rng.integers(0, 6))]
+                kids.append((d, j))
+        if style == 'negkids' and rng.random() < 0.25:
+            kids.append((float(rng.integers(2, 9)) / 8.0, i))
         if kids:
             ops.append(('kids', i, kids))
     t = 0.0
@@ -36,6 +100,14 @@ def gen_history(rng, big):
                 base = t + float(rng.integers(0, 3))
             if style in ('coalesce', 'mixed'):
                 base += TINY * int(rng.integers(0, 7))
+            if style == 'pastadds':
+                # violates AddsFrom / Inv.future: before the time evolved to, before the clock, or in the sliver
+                # between a clock that rests up to 1e-6 below the last target and that target
+                r = rng.random()
+                if r < 0.4:
+                    base = t - TINY * int(rng.integers(0, 6))
+                elif r < 0.8:
+                    base = t - float(rng.integers(0, 9)) / 4.0 + TINY * int(rng.integers(0, 4))
             ops.append(('add', base, int(rng.integers(0, nids))))
         r = rng.random()
         if r < 0.08 and t > 0:
@@ -43,9 +115,102 @@ def gen_history(rng, big):
         elif r < 0.16:
             ops.append(('evolve', t))                                           # zero-length evolution
         else:
-            t = t + float(rng.integers(0, 13)) / 4.0 + (TINY * int(rng.integers(0, 6)) if style in ('coalesce', 'mixed') else 0.0)
+            t = t + float(rng.integers(0, 13)) / 4.0 + (TINY * int(rng.integers(0, 6)) if style in ('coalesce', 'mixed', 'pastadds') else 0.0)
             ops.append(('evolve', t))
     return style, ops
+
+
+def gen_epsgrid(rng):
+    """All times are multiples of U = 2^-72 below 2^-19, so every float operation of the loop is exact, and they sit on and
+    right next to the threshold: stretches of exactly the double 1e-6 (not integrated), one ulp more (integrated), one
+    ulp less, two stretches that add up to it."""
+    pts = [0, 1, NH, NH + 1, NE - 1, NE, NE + 1, NE + 2, NE + NH, NE + NH + 1]
+    ops = []
+    if rng.random() < 0.5:
+        ops.append(('kids', 0, [(float(int(rng.integers(0, 3))) * U, 1)]))
+    targets = sorted(int(pts[int(rng.integers(0, len(pts)))]) + int(rng.integers(-1, 2)) * int(rng.random() < 0.3)
+                     for _ in range(int(rng.integers(1, 5))))
+    for T in targets:
+        T = max(T, 0)
+        for _ in range(int(rng.integers(0, 4))):
+            n = int(pts[int(rng.integers(0, len(pts)))])
+            ops.append(('add', n * U, int(rng.integers(0, 3))))
+        ops.append(('evolve', T * U))
+        if rng.random() < 0.2:
+            ops.append(('evolve', T * U))
+    return ops
+
+
+def gen_decimal(rng, nids):
+    """Times that are NOT dyadic (k/10, k/3, k/7, k/1000): t_next - self.t rounds.  The model works on the exact rationals
+    of these doubles; compared are clocks, callbacks, queue and - through the clocks - the stretches integrated."""
+    den = [10.0, 3.0, 7.0, 1000.0, 100.0]
+    ops = []
+    # no children here: the harness's own `t + d` would round, which is not the code under test
+    t = 0.0
+    for _ in range(int(rng.integers(1, 6))):
+        for _ in range(int(rng.integers(0, 5))):
+            ops.append(('add', t + float(rng.integers(0, 400)) / den[int(rng.integers(0, 5))], int(rng.integers(0, nids))))
+        t = t + float(rng.integers(1, 400)) / den[int(rng.integers(0, 5))]
+        ops.append(('evolve', t))
+        if rng.random() < 0.5:
+            ops.append(('evolve', t))          # the same target again: must be accepted (a zero-length evolution)
+    return ops
+
+
+def gen_clockrel(rng, nids):
+    """The idiom of the add_callback docstring: a callback re-inserts itself (or schedules another) at `self.t + period`,
+    relative to the CLOCK, which may rest up to 1e-6 below the callback's own time.  `kids` entries carry the kind 'clock'.
+    The model's callbacks see their queue entry only, not the clock, so these histories are checked by the property
+    oracle alone (hypothesis-free clauses; order/clock-ahead only while no child landed before its parent's time)."""
+    ops = []
+    for i in range(nids):
+        kids = []
+        if rng.random() < 0.6:
+            kids.append((float(rng.integers(1, 9)) / 8.0 + TINY * int(rng.integers(0, 3)), i, 'clock'))
+        if i + 1 < nids and rng.random() < 0.5:
+            d = [0.0, TINY * int(rng.integers(0, 6)), float(rng.integers(0, 5)) / 4.0][int(rng.integers(0, 3))]
+            kids.append((d, int(rng.integers(i + 1, nids)), 'clock' if rng.random() < 0.7 else 'own'))
+        if kids:
+            ops.append(('kids', i, kids))
+    t = 0.0
+    for _ in range(int(rng.integers(1, 5))):
+        for _ in range(int(rng.integers(0, 6))):
+            ops.append(('add', t + float(rng.integers(0, 9)) / 4.0 + TINY * int(rng.integers(0, 7)), int(rng.integers(0, nids))))
+        t = t + float(rng.integers(0, 13)) / 4.0 + TINY * int(rng.integers(0, 6))
+        ops.append(('evolve', t))
+    return ops
+
+
+def clock_relative(ops):
+    return any(op[0] == 'kids' and any(len(k) > 2 and k[2] == 'clock' for k in op[2]) for op in ops)
+
+
+def gen_diverge(rng, nids):
+    """Callbacks that re-insert themselves (or each other, in a cycle) for the very same instant or an earlier one: the
+    real loop never returns.  Every evolve_until runs under a guard: the N-th callback executed raises after its work -
+    compared with the model run on fuel N (status, clock, counter, trace, queue of the interrupted evolution)."""
+    ops = [('guard', int(rng.integers(1, 40)))]
+    i = int(rng.integers(0, nids))
+    r = rng.random()
+    if r < 0.4 or nids == 1:
+        ops.append(('kids', i, [(0.0, i)]))
+    elif r < 0.7:
+        j = (i + 1) % nids
+        ops.append(('kids', i, [(0.0, j)]))
+        ops.append(('kids', j, [(0.0, i)]))
+    else:
+        ops.append(('kids', i, [(-0.25, i), (0.5, (i + 1) % nids)]))
+    t = 0.0
+    for _ in range(int(rng.integers(1, 4))):
+        for _ in range(int(rng.integers(1, 4))):
+            ops.append(('add', t + float(rng.integers(0, 9)) / 4.0, int(rng.integers(0, nids))))
+        ops.append(('add', t + float(rng.integers(0, 5)) / 4.0, i))
+        t = t + float(rng.integers(1, 9)) / 4.0
+        if rng.random() < 0.3:
+            ops.append(('guard', int(rng.integers(1, 60))))
+        ops.append(('evolve', t))
+    return ops
 
 
 def respell(rng, ops):
@@ -128,7 +293,7 @@ def run_real(ops):
             self.events = []
 
         def integrate(self, dt):
-            self.events.append(('I', fl(dt)))
+            self.events.append(('I', fl(dt), fl(self.t)))     # the stretch handed over, and the clock it starts from
 
     s = Sys()
     kids = {}
@@ -137,6 +302,9 @@ def run_real(ops):
     shared = {}
     alias = []         # (key, what) found since the last evolve
     npoison = [0]
+    guard = [0]        # > 0: the guard-th callback executed within one evolve_until raises FuelGuard after its work
+    nexec = [0]
+    wf = [True]        # every child delay so far is >= 0 (Lean: WF kids)
 
     def snap():
         return (fl(s.t), sorted((fl(q[0]), q[1]) for q in s.callbacks))
@@ -177,11 +345,19 @@ def run_real(ops):
 
         def cb():
             s.events.append(('F', t, ctr, cid, fl(s.t)))
-            for d, child in kids.get(cid, []):
-                if 'clockobj' in mode and d == 0 and fl(s.t) == t:
+            for d, child, kind in kids.get(cid, []):
+                if kind == 'clock':
+                    tc = fl(s.t) + d                # the docstring idiom: self.t + period
+                    if tc < t:
+                        wf[0] = False               # the clock lagged: the child is due before its parent's time
+                    add(tc, child)
+                elif 'clockobj' in mode and d == 0 and fl(s.t) == t:
                     add(t, child, obj=s.t)          # "now", spelled as the clock object itself
                 else:
                     add(t + d, child)
+            nexec[0] += 1
+            if guard[0] and nexec[0] >= guard[0]:
+                raise FuelGuard()
         if obj is not None:
             s.add_callback(obj, cb)
             return
@@ -193,17 +369,25 @@ def run_real(ops):
     obs = []
     hz = 0.0                    # the largest target an accepted evolve_until was given
     adds_after_horizon = True   # every add_callback from outside was for a time >= hz at that moment
+    adds_from_clock = True      # every add_callback from outside was for a time >= the clock at that moment (Lean: Inv.future)
     for op in ops:
         if op[0] == 'kids':
-            kids[op[1]] = [(float(d), int(c)) for d, c in op[2]]
+            kids[op[1]] = [(float(k[0]), int(k[1]), (k[2] if len(k) > 2 else 'own')) for k in op[2]]
+            if any(float(k[0]) < 0 for k in op[2]):
+                wf[0] = False
         elif op[0] == 'mode':
             mode.add(op[1])
+        elif op[0] == 'guard':
+            guard[0] = int(op[1])
         elif op[0] == 'add':
             if float(op[1]) < hz:
                 adds_after_horizon = False
+            if float(op[1]) < fl(s.t):
+                adds_from_clock = False
             add(float(op[1]), int(op[2]), how=(op[3] if len(op) > 3 else 'f'))
         elif op[0] == 'evolve':
             s.events = []
+            nexec[0] = 0
             t0 = fl(s.t)
             n_sched0 = len(scheduled)
             status = 'ok'
@@ -215,6 +399,8 @@ def run_real(ops):
                 status = 'value'
             except IndexError:
                 status = 'index'
+            except FuelGuard:
+                status = 'fuel'
             except Exception as e:  # noqa
                 status = 'other:' + type(e).__name__
             if status != 'value':
@@ -225,10 +411,26 @@ def run_real(ops):
                 poison(mut, 'evolve_until(<%s array %r>)' % (how, float(op[1])))
             obs.append({'T': float(op[1]), 'status': status, 't0': t0, 't1': t1, 'ctr': s.callback_counter,
                         'events': list(s.events), 'queue': queue, 'scheduled': list(scheduled), 'n_sched0': n_sched0,
-                        'hz': hz, 'adds_after_horizon': adds_after_horizon, 'alias': alias})
+                        'hz': hz, 'adds_after_horizon': adds_after_horizon, 'alias': alias,
+                        'adds_from_clock': adds_from_clock, 'wf': wf[0], 'guard': guard[0]})
             alias = []
     if alias and obs:
         obs[-1]['alias'] = obs[-1]['alias'] + alias
+    if obs:
+        obs[-1]['created'] = list(scheduled)      # every entry ever created, in creation order
+        # the classification of the whole history (adds after the last evolve_until included)
+        obs[-1]['final_flags'] = (adds_after_horizon, adds_from_clock)
+        # the same target once more must be accepted (it is not backwards): a zero-length evolution
+        last = obs[-1]
+        if last['status'] == 'ok' and not guard[0]:
+            try:
+                n0 = len(s.events)
+                s.evolve_until(last['T'])
+                last['again'] = 'ok' if len(s.events) == n0 and fl(s.t) == last['t1'] else 'changed'
+            except ValueError:
+                last['again'] = 'value'
+            except Exception as e:  # noqa
+                last['again'] = 'other:' + type(e).__name__
     return obs
 
 
@@ -244,39 +446,88 @@ def real_hist_line(obs, ops):
             break
         if op[0] == 'add':
             nadd_after += 1
-    return 'hz=%s t=%s created=%d fired=%d pending=%d sorted=%s run=%s' % (
-        rat(last['hz']), rat(last['t1']), last['ctr'] + nadd_after, len(fires), len(last['queue']) + nadd_after,
+    fuels = set()
+    fuel = FUEL
+    for op in ops:
+        if op[0] == 'guard':
+            fuel = int(op[1])
+        elif op[0] == 'evolve':
+            fuels.add(fuel)
+    # `replay`: the model re-ran the whole history through runOps with one entry-only callback table and one fuel and
+    # got the same Hist (not attempted when the guard, i.e. the fuel, changed within the history)
+    # the hypotheses of history_inv / history_exactly_once as the harness classified the real history (these flags gate
+    # the oracle clauses order-across-evolves / clock-ahead-of-callback); the model decides AddsFrom / NoFuelOut itself
+    if len(fuels) <= 1:
+        b = lambda x: 'true' if x else 'false'  # noqa
+        hyp = 'addsfrom_hz=%s addsfrom_t=%s nofuelout=%s' % (b(last['final_flags'][0]), b(last['final_flags'][1]),
+                                                             b(all(o['status'] != 'fuel' for o in obs)))
+    else:
+        hyp = 'addsfrom_hz=na addsfrom_t=na nofuelout=na'
+    return 'replay=%s %s hz=%s t=%s created=%d fired=%d pending=%d sorted=%s run=%s created=%s' % (
+        'true' if len(fuels) <= 1 else 'na', hyp, rat(last['hz']), rat(last['t1']), last['ctr'] + nadd_after, len(fires), len(last['queue']) + nadd_after,
         'true' if all(a < b for a, b in zip(keys, keys[1:])) else 'false',
-        ';'.join('%s:%d:%d' % (rat(e[1]), e[2], e[3]) for e in fires))
+        ';'.join('%s:%d:%d' % (rat(e[1]), e[2], e[3]) for e in fires),
+        ';'.join('%s:%d:%d' % (rat(t), c, i) for (t, c, i) in last['created']))
+
+
+def stretches(o):
+    """For every integrate() call of one evolve_until: (dt handed over, clock before, clock after), the clock after read
+    off the next observation (the clock the next callback saw, or the final clock); None where that is not possible."""
+    out = []
+    ev = o['events']
+    for k, e in enumerate(ev):
+        if e[0] != 'I':
+            continue
+        if k + 1 < len(ev):
+            after = ev[k + 1][4] if ev[k + 1][0] == 'F' else None
+        else:
+            after = o['t1']
+        out.append((e[1], e[2], after))
+    return out
 
 
 def real_line(o):
+    """Integrations are printed as the exact length of the stretch the clock moved over (for dyadic times that IS the dt
+    handed to integrate(); for other doubles dt is its rounding, checked by the oracle clause `integrate-argument`)."""
     ev = []
+    st = iter(stretches(o))
     for e in o['events']:
         if e[0] == 'I':
-            ev.append('I:' + rat(e[1]))
+            dt, before, after = next(st)
+            ev.append('I:' + (rat(Fraction(after) - Fraction(before)) if after is not None else rat(dt)))
         else:
             ev.append('F:%s:%d:%d:%s' % (rat(e[1]), e[2], e[3], rat(e[4])))
     ids = {(t, c): i for (t, c, i) in o['scheduled']}
     # an entry the harness did not schedule itself (re-inserted by the implementation) prints as id -1:
     # that is a correspondence difference, never a harness fault
     q = ';'.join('%s:%d:%d' % (rat(t), c, ids.get((t, c), -1)) for (t, c) in o['queue'])
-    return '%s t=%s ctr=%d trace=%s queue=%s' % (o['status'], rat(o['t1']), o['ctr'], ';'.join(ev), q)
+    # the integration intervals as the real clock moved over them (clock when integrate() was entered > the next clock
+    # observed), the total movement of the clock, the clock the last callback saw: Lean `intervals`, `sumDt`,
+    # `lastFireClock` of the model's trace (intervals_tile, trace_consistent, final_clock_exact)
+    iv = ';'.join('%s>%s' % (rat(before), rat(after if after is not None else before + dt)) for dt, before, after in stretches(o))
+    fires = [e for e in o['events'] if e[0] == 'F']
+    return '%s t=%s ctr=%d trace=%s queue=%s iv=%s sum=%s lfc=%s same=true' % (
+        o['status'], rat(o['t1']), o['ctr'], ';'.join(ev), q, iv, rat(Fraction(o['t1']) - Fraction(o['t0'])),
+        rat(fires[-1][4] if fires else o['t0']))
 
 
 def model_lines(ops):
     lines = ['C20 reset']
     idx = []
+    fuel = FUEL
     for op in ops:
         if op[0] == 'kids':
-            lines.append('C20 kids %d %s' % (op[1], ','.join('%s:%d' % (rat(d), c) for d, c in op[2])))
+            lines.append('C20 kids %d %s' % (op[1], ','.join(
+                '%s:%d:%s' % (rat(k[0]), k[1], 'c' if len(k) > 2 and k[2] == 'clock' else 'o') for k in op[2]) or '-'))
         elif op[0] == 'add':
             lines.append('C20 add %s %d' % (rat(op[1]), op[2]))
         elif op[0] == 'mode':
             continue            # how the times are spelled is invisible to the model: times are values
+        elif op[0] == 'guard':
+            fuel = int(op[1])   # the N-th callback raises  <->  the model runs on fuel N
         else:
             idx.append(len(lines))
-            lines.append('C20 evolve %s %d new' % (rat(op[1]), FUEL))
+            lines.append('C20 evolve %s %d new' % (rat(op[1]), fuel))
     lines.append('C20 hist')
     return lines, idx
 
@@ -285,7 +536,16 @@ def model_lines(ops):
 # the property itself, stated on the observations of the real code (independent of the model)
 
 def oracle(obs):
-    """Returns a list of (key, what) for every clause of C20 that fails on these observations."""
+    """Returns a list of (key, what) for every clause of C20 that fails on these observations.
+
+    Each clause is evaluated exactly under the hypotheses of its theorem in Properties/C20.lean: exactly-once, the
+    upper clock lag, tiling, the final clock and the refusal of backwards calls for EVERY history (adds in the past,
+    children in the past: `exactly_once_count`, `clock_lag_any`, `intervals_tile`, `final_clock_exact`,
+    `loop_clock_end_any`); the order within a call when no callback schedules a child before its own time (`WF`:
+    `fired_sorted`); "the clock is never ahead of the callback's time" when moreover nothing was added before the
+    clock (`clock_at_callback`); the order across calls when nothing was added before the time evolved to
+    (`history_inv`).  Comparisons of clocks with targets are exact float comparisons: the clauses are inequalities
+    between the numbers the system holds."""
     bad = []
     executed_before = set()
     for k, o in enumerate(obs):
@@ -298,13 +558,29 @@ def oracle(obs):
             elif o['events'] or o['t1'] != o['t0']:
                 bad.append(('backwards-side-effects', 'refused backwards evolution changed the system'))
             continue
+        fires = [e for e in o['events'] if e[0] == 'F']
+        fired_keys = [(e[1], e[2]) for e in fires]
+        if o['status'] == 'value':
+            bad.append(('forwards-refused', 'evolve_until(%r) with the clock at %r (not ahead of the target) was refused as backwards'
+                        % (T, o['t0'])))
+            continue
+        if o['status'] == 'fuel' and o.get('guard'):
+            # the harness's guard interrupted the evolution: what holds whatever the status (conservation_perm,
+            # fired_nodup, fired_lt_horizon, trace_consistent)
+            if len(set(fired_keys)) != len(fired_keys):
+                bad.append(('exactly-once', 'a callback ran twice'))
+            known = set((t, c) for (t, c, i) in o['scheduled'] if t < T) - executed_before
+            if not set(fired_keys) <= known:
+                bad.append(('exactly-once', 'a callback ran that was not due before T=%r or had run already' % (T,)))
+            executed_before |= set(fired_keys)
+            if len(fires) != o['guard']:
+                bad.append(('guard', 'the guard tripped after %d callbacks, not %d' % (len(fires), o['guard'])))
+            continue
         if o['status'] != 'ok':
             pending = [q for q in o['queue']]
             key = 'raises-%s%s' % (o['status'], '-empty-queue' if not pending else '')
             bad.append((key, 'evolve_until(%r) raised %s (queue %s)' % (T, o['status'], 'empty' if not pending else 'non-empty')))
             continue
-        fires = [e for e in o['events'] if e[0] == 'F']
-        fired_keys = [(e[1], e[2]) for e in fires]
         # exactly once: everything ever scheduled with time < T and not executed earlier
         due = set((t, c) for (t, c, i) in o['scheduled'] if t < T) - executed_before
         if len(set(fired_keys)) != len(fired_keys):
@@ -314,12 +590,15 @@ def oracle(obs):
             extra = sorted(set(fired_keys) - due)[:3]
             bad.append(('exactly-once', 'executed set differs from the callbacks due before T=%r: missing %r, extra %r' % (T, missing, extra)))
         executed_before |= set(fired_keys)
-        if fired_keys != sorted(fired_keys):
+        if o['wf'] and fired_keys != sorted(fired_keys):
             bad.append(('order', 'callbacks did not run in (time, insertion) order: %r' % (fired_keys[:6],)))
         for e in fires:
             lag = e[1] - e[4]
-            if lag < -1e-12 or lag > EPS + 1e-12:
-                bad.append(('clock-at-callback', 'callback due at %r ran with the clock at %r' % (e[1], e[4])))
+            if lag > EPS:
+                bad.append(('clock-at-callback', 'callback due at %r ran with the clock at %r, more than 1e-6 behind' % (e[1], e[4])))
+                break
+            if lag < 0 and o['wf'] and o['adds_from_clock']:
+                bad.append(('clock-ahead-of-callback', 'callback due at %r ran with the clock already at %r' % (e[1], e[4])))
                 break
         dts = [e[1] for e in o['events'] if e[0] == 'I']
         if any(dt <= EPS for dt in dts):
@@ -334,13 +613,36 @@ def oracle(obs):
             elif abs(clock - e[4]) > 1e-9 * max(1.0, abs(clock)):
                 bad.append(('tiling', 'clock at a callback is not the sum of the intervals integrated so far'))
                 break
-        if not (-1e-12 <= T - o['t1'] <= EPS + 1e-12):
+        # each integrate(dt) is handed the (correctly rounded) length of the stretch the clock then moves over,
+        # starting where the previous one ended
+        prev = o['t0']
+        for dt, before, after in stretches(o):
+            if before != prev:
+                bad.append(('tiling', 'an integration starts at clock %r but the previous stretch ended at %r' % (before, prev)))
+                break
+            if after is None or dt != float(Fraction(after) - Fraction(before)):
+                bad.append(('integrate-argument', 'integrate(%r) was called for the stretch from clock %r to clock %r' % (dt, before, after)))
+                break
+            prev = after
+        if o['t1'] > T:
+            bad.append(('clock-above-target', 'evolve_until(%r) left the clock at %r, above the target' % (T, o['t1'])))
+        if T - o['t1'] > EPS:
             bad.append(('clock-end', 'clock ended at %r for target %r' % (o['t1'], T)))
+        # the final clock exactly (Lean: final_clock_exact): from the clock the last callback saw, the remaining
+        # stretch is bridged iff it is longer than 1e-6
+        c_last = fires[-1][4] if fires else o['t0']
+        want = T if T - c_last > EPS else c_last
+        if o['t1'] != want and o['t1'] <= T:
+            bad.append(('clock-end-exact', 'last callback clock %r, target %r: the clock ended at %r, not %r' % (c_last, T, o['t1'], want)))
         if any(t < T for (t, c) in o['queue']):
             bad.append(('exactly-once', 'a callback due before T is still queued'))
+        if o.get('again', 'ok') != 'ok':
+            bad.append(('repeated-target-refused' if o['again'] == 'value' else 'repeated-target-' + o['again'],
+                        'after evolve_until(%r) returned (clock %r) the same call once more %s' % (
+                            T, o['t1'], 'raises ValueError (backwards)' if o['again'] == 'value' else 'gives ' + o['again'])))
     # history level (Lean: history_inv): when no add_callback was for a time before the largest target
     # already evolved to, the callbacks run in (time, insertion) order ACROSS evolve_until calls as well
-    if obs and obs[-1]['adds_after_horizon']:
+    if obs and obs[-1]['adds_after_horizon'] and obs[-1]['wf']:
         allkeys = [(e[1], e[2]) for o in obs if o['status'] == 'ok' for e in o['events'] if e[0] == 'F']
         if any(not (a < b) for a, b in zip(allkeys, allkeys[1:])):
             bad.append(('order-across-evolves', 'callbacks of successive evolve_until calls did not run in (time, insertion) order'))
@@ -369,7 +671,46 @@ DIRECTED = [
                  ('evolve', 1.0, '1ds'), ('evolve', 1.0, '1ds'), ('evolve', 2.125, '1ds'), ('evolve', 1.0, '0d'), ('evolve', 3.0, '0ds')]),
     ('spelled', [('mode', 'clockobj'), ('kids', 0, [(0.0, 1)]), ('add', 1.0, 0, '0d'), ('add', 1.0 + 3 * TINY, 1, '1d'),
                  ('evolve', 1.0 + 5 * TINY, '1d'), ('add', 2.0, 0, 'np'), ('evolve', 2.0 + 2 * TINY, '0ds'), ('evolve', 3.0, '0ds')]),
+    # --- round 4: outside the hypotheses of the hypothesis-carrying theorems
+    # adds for instants already passed (Inv.future, AddsFrom violated): they run at the next call, exactly once
+    ('pastadds', [('add', 1.0, 0), ('evolve', 2.0), ('add', 0.5, 1), ('add', 1.5, 2), ('add', -1.0, 3), ('evolve', 2.0), ('evolve', 3.0)]),
+    # Lean `sliverOps` / history_order_needs_horizon on the real code: the clock rests 2 TINY below the target 1, an add
+    # into that sliver runs, in the next call, after a callback with a later time
+    ('pastadds', [('add', 1.0 - 2 * TINY, 0), ('add', 1.0 - TINY, 1), ('evolve', 1.0), ('add', 1.0 - 1.5 * TINY, 2), ('evolve', 2.0)]),
+    # Lean `pastKid` / order_needs_wf: a child half a time unit before its parent runs after it, clock ahead of its time
+    ('negkids', [('kids', 0, [(-0.5, 1)]), ('add', 1.0, 0), ('evolve', 2.0)]),
+    ('negkids', [('kids', 0, [(-0.5, 1), (-TINY, 2), (0.0, 1)]), ('kids', 1, [(-2.0, 2)]), ('add', 1.0, 0), ('add', 1.0, 1), ('evolve', 1.0), ('evolve', 2.0)]),
+    # Lean `selfNow` / diverges_zero_delay_reinsertion: the real loop would spin; the 7th callback raises (fuel 7)
+    ('diverge', [('guard', 7), ('kids', 0, [(0.0, 0)]), ('add', 1.0, 0), ('evolve', 2.0), ('evolve', 2.0)]),
+    ('diverge', [('guard', 1), ('add', 0.5, 0), ('add', 0.75, 1), ('evolve', 1.0), ('guard', 2), ('evolve', 1.0), ('evolve', 2.0)]),
+    ('diverge', [('guard', 5), ('kids', 0, [(0.0, 1)]), ('kids', 1, [(-0.25, 0)]), ('add', 1.0, 0), ('evolve', 2.0), ('guard', 3), ('evolve', 3.0)]),
+    # Lean final_clock_below_target_possible: the clock ends strictly below the target
+    ('below-target', [('evolve', 2 * TINY), ('evolve', 3 * TINY), ('evolve', 5 * TINY)]),
+    # the threshold itself: a stretch of exactly the double 1e-6 is not integrated, one ulp more is
+    ('epsgrid', [('evolve', NE * U), ('evolve', (NE + 1) * U)]),
+    ('epsgrid', [('add', NH * U, 0), ('add', NE * U, 1), ('add', (NE + 1) * U, 2), ('evolve', (NE + NH + 1) * U)]),
+    ('epsgrid', [('add', 1 * U, 0), ('evolve', (NE + 1) * U), ('evolve', (NE + 2) * U)]),
+    # doubles that are not dyadic: the subtraction t_next - self.t rounds
+    # the docstring idiom `add_callback(self.t + period, ...)`: clock-relative children (oracle only)
+    ('clockrel', [('kids', 0, [(0.25, 0, 'clock')]), ('add', 1.0, 0), ('add', 1.0 + 2 * TINY, 0), ('evolve', 2.0), ('evolve', 3.0 + TINY)]),
+    ('clockrel', [('kids', 1, [(0.0, 2, 'clock')]), ('add', 1.0, 0), ('add', 1.0 + 2 * TINY, 1), ('evolve', 2.0)]),
+    ('decimal', [('evolve', 20.2), ('evolve', 53.6), ('evolve', 53.6)]),
+    ('decimal', [('add', 53.6, 0), ('evolve', 20.2), ('evolve', 62.4)]),
+    ('decimal', [('add', 0.1, 0), ('add', 0.3, 1), ('add', 0.1 + 0.2, 2), ('add', 0.7, 3), ('evolve', 0.7), ('evolve', 0.7), ('evolve', 1.3)]),
 ]
+
+
+def terminating(ops, cand):
+    """Shrinking must not strip the guard off a history whose callbacks re-insert themselves for the same instant: the
+    real loop would spin forever.  A candidate of a guarded history must install a guard before its first evolve_until."""
+    if not any(op[0] == 'guard' for op in ops):
+        return True
+    for op in cand:
+        if op[0] == 'guard' and int(op[1]) > 0:
+            return True
+        if op[0] == 'evolve':
+            return False
+    return True
 
 
 def check_history(ctx, style, ops, want_model=True):
@@ -380,7 +721,7 @@ def check_history(ctx, style, ops, want_model=True):
         if key in seen:
             continue
         seen.add(key)
-        small = shrink_list(ops, lambda o: any(k == key for k, _ in oracle(run_real(o))))
+        small = shrink_list(ops, lambda o: terminating(ops, o) and any(k == key for k, _ in oracle(run_real(o))))
         what_small = [w for k, w in oracle(run_real(small)) if k == key]
         ctx.violation(key, what_small[0] if what_small else what, {'ops': small})
     nfire = sum(1 for o in obs for e in o['events'] if e[0] == 'F')
@@ -409,7 +750,24 @@ def run(ctx):
                 'changes its arrays in place right after each call and clock and queue (as floats) must not move; callbacks may pass '
                 'the clock object itself back into add_callback. Non-trivial = at least one callback fired or several evolutions; '
                 'distinct by (style, #ops, #fired, coalescing seen, statuses).')
-    ctx.assumptions += ['heapq pops the least (time, counter) tuple', 'float arithmetic on the generated dyadic times is exact']
+    ctx.rule += (' Round 4: styles outside the hypotheses of the hypothesis-carrying theorems - pastadds (add_callback for '
+                 'instants before the time evolved to, before the clock, or in the sliver between a resting clock and the last '
+                 'target), negkids (children scheduled before their parent\'s time), diverge (zero/negative-delay '
+                 're-insertion cycles; every evolve_until under a guard: the N-th callback raises, the model runs on fuel N), '
+                 'epsgrid (times on the 2^-72 grid around the double 1e-6: stretches of exactly the threshold, one ulp '
+                 'more/less), decimal (non-dyadic doubles: clocks, callbacks and queue compared exactly, each integrate(dt) '
+                 'must be the correctly rounded stretch between two clocks). The oracle evaluates each clause under exactly the '
+                 'hypotheses of its theorem; after each history the last target is requested once more and must be accepted.')
+    ctx.rule += (' Clock-relative children (`self.t + d`, the docstring idiom; style clockrel) are modelled by loopC/stepOpC. '
+                 'Generated histories whose dry-run population reaches %d executed callbacks are drawn again.' % POPULATION_CAP)
+    ctx.extra['population_cap'] = POPULATION_CAP
+    ctx.assumptions += ['heapq pops the least (time, counter) tuple',
+                        'float subtraction of the generated dyadic / grid times is exact; for the decimal style only the clocks are '
+                        'compared exactly (integrate arguments through the clocks)']
+    # T2-like tie of the threshold constant: read the float literal out of the running code object
+    import hcipy
+    consts = [c for c in hcipy.DynamicOpticalSystem.evolve_until.__code__.co_consts if isinstance(c, float)]
+    ctx.extra['threshold_constants_in_evolve_until'] = [repr(c) for c in consts]
     n = ctx.scale(400, 6000)
     hist = [(s, o) for s, o in DIRECTED]
     for k in range(n):
@@ -422,30 +780,41 @@ def run(ctx):
     observations = []
     for style, ops in hist:
         obs = check_history(ctx, style, ops)
+        if clock_relative(ops):
+            ctx.count('histories_with_clock_relative_children')
+            ctx.count('clock_relative_wf:%s' % (obs[-1]['wf'] if obs else True))
         lines, idx = model_lines(ops)
         base = len(all_lines)
         all_lines += lines
         index.append([base + i for i in idx] + [base + len(lines) - 1])
         observations.append((style, ops, obs))
+    eps_line = len(all_lines)
+    all_lines.append('C20 eps %s' % (rat(consts[0]) if len(consts) == 1 else '0'))
     out = ctx.model(all_lines)
+    ctx.traces_validated += 1
+    if len(consts) != 1 or out[eps_line] != 'ok':
+        ctx.disagree('C20 eps', {'impl': 'float literals of DynamicOpticalSystem.evolve_until: %r' % (consts,),
+                                 'model': out[eps_line] + ' (eps of Model/Scheduler.lean)'})
     for (style, ops, obs), idx in zip(observations, index):
         ihist = idx.pop()
         agree = True
         for o, i in zip(obs, idx):
             ctx.traces_validated += 1
-            if out[i].startswith('fuel'):
+            if out[i].startswith('fuel') and not o.get('guard'):
                 raise MachineryError('model ran out of fuel on %r' % (ops,))
+            if o['status'] == 'fuel':
+                ctx.count('evolves_interrupted_by_guard')
             if real_line(o) != out[i]:
                 ctx.disagree('C20 evolve', {'ops': ops, 'T': o['T'], 'impl': real_line(o), 'model': out[i]},
                              key=('raises-index-empty-queue' if o['status'] == 'index' else None))
                 agree = False
                 break
         # whole-history summary: time evolved to, clock, #created, #executed, #pending, global order
-        if agree and obs and all(o['status'] in ('ok', 'value') for o in obs):
+        if agree and obs and all(o['status'] in ('ok', 'value', 'fuel') for o in obs):
             ctx.traces_validated += 1
             ctx.count('history_summaries_compared')
-            if obs[-1]['adds_after_horizon']:
-                ctx.count('histories_with_adds_after_horizon')
+            for flag in ('adds_after_horizon', 'adds_from_clock', 'wf'):
+                ctx.count('histories_%s:%s' % (flag, obs[-1][flag]))
             rl = real_hist_line(obs, ops)
             if rl != out[ihist]:
                 ctx.disagree('C20 hist', {'ops': ops, 'impl': rl, 'model': out[ihist]})
